@@ -275,3 +275,24 @@ func VerifFitSpline(p1, p2 [2]float64, rs []VerifRect) (path [][2]float64, piece
 func VerifSolve3(coeff [4]float64) []float64 {
 	return geom.VerifSolve3(coeff)
 }
+
+// VerifUnit runs one inner function of the library on a synthetic state: the graph populated from source with
+// the given layer per node id. It returns a snapshot before and after. fn: "vbalance" | "normalize".
+func VerifUnit(fn string, source graph.Source, layers map[string]int) (before, after VerifSnap) {
+	G := from(source)
+	for _, n := range G.Nodes {
+		n.Layer = layers[n.ID]
+	}
+	x := &verifIndex{nidx: map[*ig.Node]int{}, eidx: map[*ig.Edge]int{}}
+	before = x.snap("before", 0, G)
+	switch fn {
+	case "vbalance":
+		phase2.VerifVbalance(G)
+	case "normalize":
+		phase2.VerifNormalize(G)
+	default:
+		panic("VerifUnit: unknown function " + fn)
+	}
+	after = x.snap("after", 0, G)
+	return before, after
+}
